@@ -5,8 +5,14 @@ import (
 	"sort"
 	"strings"
 
+	"os"
+	"path/filepath"
+
+	"github.com/krotik/ecal/cli/tool"
+	"github.com/krotik/ecal/config"
 	"github.com/krotik/ecal/engine"
 	"github.com/krotik/ecal/interpreter"
+	"github.com/krotik/ecal/stdlib"
 	"github.com/krotik/ecal/util"
 	"simrt"
 	"simrt/simsync"
@@ -33,6 +39,17 @@ type c12Plan struct {
 	Cross   bool        `json:"cross,omitempty"`   // extra pair: A waits inside mutex x for a flag B sets inside mutex y
 	Kill    int         `json:"kill,omitempty"`    // >0: an extra thread is suspended by a debugger inside `mutex a` and then killed (StopThreads) after Kill-1 scheduling rounds
 	KillIn  int         `json:"kill_in,omitempty"` // nesting depth (same name) at which the killed thread is suspended
+	Console *c12Console `json:"console,omitempty"` // the program is the entry file of a cli/tool console (see c12ConsoleRun)
+}
+
+// c12Console: the console of cli/tool evaluates its entry file (a mutex block that
+// stays inside for a while) on reload in a goroutine of its own while the user and
+// further connections go on entering lines that enter blocks of the same name.
+type c12Console struct {
+	Stall   int   `json:"stall"`
+	Reloads int   `json:"reloads"`
+	Lines   []int `json:"lines"` // per extra connection: number of lines entering `mutex a`
+	Gap     int   `json:"gap"`   // scheduling rounds between @reload and the user's next line
 }
 
 func init() {
@@ -82,11 +99,43 @@ func c12Gen(r *simrt.RNG, tier string) interface{} {
 		p.Kill = 1 + r.Intn(6)
 		p.KillIn = r.Intn(3)
 	}
+	if r.Bool(0.05) {
+		p.Console = &c12Console{Stall: 1 + r.Intn(4), Reloads: 1 + r.Intn(2), Gap: r.Intn(8)}
+		for i := 0; i < r.Intn(3); i++ {
+			p.Console.Lines = append(p.Console.Lines, 1+r.Intn(3))
+		}
+		p.Threads, p.Cross, p.Kill = nil, false, 0
+	}
 	return p
 }
 
 func c12Shrink(pi interface{}) []interface{} {
 	p := pi.(*c12Plan)
+	if p.Console != nil {
+		var out []interface{}
+		c := p.Console
+		mk := func(f func(n *c12Console)) {
+			q := *p
+			n := *c
+			n.Lines = append([]int(nil), c.Lines...)
+			f(&n)
+			q.Console = &n
+			out = append(out, &q)
+		}
+		if c.Reloads > 1 {
+			mk(func(n *c12Console) { n.Reloads-- })
+		}
+		if len(c.Lines) > 0 {
+			mk(func(n *c12Console) { n.Lines = n.Lines[1:] })
+		}
+		if c.Stall > 1 {
+			mk(func(n *c12Console) { n.Stall = 1 })
+		}
+		if c.Gap > 0 {
+			mk(func(n *c12Console) { n.Gap = 0 })
+		}
+		return out
+	}
 	if p.Kill > 0 {
 		q := *p
 		q.Kill, q.KillIn = 0, 0
@@ -262,6 +311,10 @@ func indent(s, by string) string {
 }
 
 func c12Run(p *c12Plan) {
+	if p.Console != nil {
+		c12ConsoleRun(p)
+		return
+	}
 	erp, _ := newProvider(p.Workers, nil)
 	vs := newGlobalScope()
 	occ := map[string]map[uint64]int{}
@@ -443,4 +496,105 @@ func c12Run(p *c12Plan) {
 		}
 	}
 	erp.Processor.Finish()
+}
+
+// c12ConsoleRun: threads are the goroutines of the console (the user's thread, the
+// reload goroutine, one thread per further connection); "inside" is observed per
+// goroutine, whatever thread id the console handed to it.
+func c12ConsoleRun(p *c12Plan) {
+	c := p.Console
+	dir := cliWorkDir()
+	inside := map[string]map[int]int{} // name -> task id -> depth
+	if err := stdlib.AddStdlibPkg("verif", "probes of the harness"); err != nil {
+		simrt.Fail("oracle:setup", "setup", "AddStdlibPkg: %v", err)
+	}
+	add := func(name string, f func(tid uint64, args []interface{}) (interface{}, error)) {
+		stdlib.AddStdlibFunc("verif", name, &goFunc{name: name, f: f})
+	}
+	add("enter", func(tid uint64, args []interface{}) (interface{}, error) {
+		n, me := fmt.Sprint(args[0]), simrt.CurTask().ID
+		if inside[n] == nil {
+			inside[n] = map[int]int{}
+		}
+		for other, d := range inside[n] {
+			if other != me && d > 0 {
+				simrt.Fail("oracle:mutual-exclusion", "mutual-exclusion", "a thread of the console (task %d, thread id %d) entered mutex block %q while another one (task %d) is inside a block of the same name", me, tid, n, other)
+			}
+		}
+		inside[n][me]++
+		return nil, nil
+	})
+	add("leave", func(tid uint64, args []interface{}) (interface{}, error) {
+		inside[fmt.Sprint(args[0])][simrt.CurTask().ID]--
+		return nil, nil
+	})
+	add("stall", func(tid uint64, args []interface{}) (interface{}, error) {
+		k, _ := num(args[0])
+		simrt.Count("fault_stall_inside_mutex")
+		for i := 0; i < int(k); i++ {
+			simrt.Yield()
+		}
+		return nil, nil
+	})
+	entry := fmt.Sprintf("mutex a {\n    verif.enter(\"a\")\n    verif.stall(%d)\n    verif.leave(\"a\")\n}\n", c.Stall)
+	if err := os.WriteFile(filepath.Join(dir, "c12.ecal"), []byte(entry), 0644); err != nil {
+		simrt.Fail("oracle:setup", "setup", "cannot write the entry file: %v", err)
+	}
+	engine.UnitTestResetIDs()
+	config.Config[config.WorkerCount] = p.Workers
+	ci := tool.NewCLIInterpreter()
+	empty, level, wd := "", "Error", "."
+	ci.Dir, ci.LogFile, ci.LogLevel = &wd, &empty, &level
+	ci.LoadPlugins = false
+	ci.EntryFile = "c12.ecal"
+	ci.LogOut = &strings.Builder{}
+	ci.RuntimeProvider = interpreter.NewECALRuntimeProvider("sim console", &util.FileImportLocator{Root: dir}, util.NewMemoryLogger(100))
+	ci.RuntimeProvider.Cron.Stop()
+	if err := ci.Interpret(false); err != nil {
+		simrt.Fail("oracle:setup", "setup", "Interpret: %v", err)
+	}
+	line := "mutex a {\n    verif.enter(\"a\")\n    verif.leave(\"a\")\n}"
+	var wg simsync.WaitGroup
+	for i, n := range c.Lines {
+		n := n
+		wg.Add(1)
+		simrt.Go(fmt.Sprintf("connection%d", i), func() {
+			defer wg.Done()
+			tid := ci.RuntimeProvider.NewThreadID()
+			for k := 0; k < n; k++ {
+				ci.HandleInput(&memTerm{}, line, tid)
+				simrt.Yield()
+			}
+		})
+	}
+	tid := ci.RuntimeProvider.NewThreadID() // the console user's thread
+	for k := 0; k < c.Reloads; k++ {
+		term := &memTerm{}
+		simrt.Count("fault_console_reload")
+		ci.HandleInput(term, "@reload", tid)
+		for y := 0; y < c.Gap; y++ {
+			simrt.Yield()
+		}
+		out := &memTerm{}
+		ci.HandleInput(out, line, tid)
+		if strings.TrimSpace(out.b.String()) != "" {
+			simrt.Fail("oracle:thread-error", "thread-error", "console line ended with: %s", out.b.String())
+		}
+		for !strings.Contains(term.b.String(), "Interpreter reloaded") {
+			simrt.Yield()
+		}
+		if !strings.Contains(term.b.String(), "Interpreter reloaded: <nil>") {
+			simrt.Fail("oracle:thread-error", "thread-error", "reload ended with: %s", term.b.String())
+		}
+	}
+	wg.Wait()
+	simrt.WaitQuiescent()
+	for n, m := range inside {
+		for t, d := range m {
+			if d != 0 {
+				simrt.Fail("oracle:harness", "occupancy-nonzero", "occupancy of %q by task %d is %d at the end", n, t, d)
+			}
+		}
+	}
+	ci.RuntimeProvider.Processor.Finish()
 }
